@@ -16,6 +16,17 @@ CHECKS = {
                 design='DESIGN.md §2 C06'),
 }
 
+CHECKS['C05'] = dict(level='exploration',
+    technique='runtime monitoring: metamorphic fixed-point oracle F(F(x))==F(x) and --check over an enumerated file x profile universe',
+    text='Every (C/C++ corpus file, curated profile) pair of the fixed universe (quick: seeded 40 % slice; thorough: all) is formatted twice by the real binary and the two outputs compared byte for byte; --check is run on the first output; unstable pairs of the pinned tree are listed individually in known_findings.json. The weaker second-pass-accepted claim is observed on the test-suite (config, input) pairs of all languages.',
+    note='Trusted: determinism of the binary (monitored by C10). Profiles are etc/ styles plus three pinned overrides (profiles/derive.py).',
+    design='DESIGN.md §2 C05')
+CHECKS['C10'] = dict(level='exploration',
+    technique='runtime monitoring: differential oracle across delivery modes, observer options, environments, ASLR, asan binary, plus valgrind memcheck on a sample',
+    text='For each sampled (corpus file, config) about 45 executions of the real binary (12 delivery/output modes with and without -l, 10 observer option sets, 7 environments, ASLR off, repeat, other cwd, ASan build, valgrind memcheck sample) must give the reference bytes and status and create only the documented files (directory snapshots).',
+    note='Trusted: file name held constant across modes; locales limited to those installed.',
+    design='DESIGN.md §2 C10')
+
 ALL = ['C%02d' % i for i in range(1, 21)]
 
 
